@@ -42,6 +42,7 @@ let values_of rk vals =
   match rk with
   | 'i' | 'r' | 'g' | 'u' -> List.map (fun v -> VInt (z_of_string v)) vals
   | 'd' -> List.map (fun v -> VDbg (z_of_string v)) vals
+  | 'e' -> List.map (fun v -> VBlank (z_of_string v)) vals
   | _ -> List.map (fun v -> VStr (st v)) vals
 
 (* opts token: - | n | t | f, optionally followed by a sample count *)
@@ -171,6 +172,7 @@ let render_val = function
   | VInt z -> "i" ^ string_of_z z
   | VStr s -> "s" ^ enc (ts s)
   | VDbg z -> "d" ^ string_of_z z
+  | VBlank z -> "e" ^ string_of_z z
 
 let status = function
   | None -> ""
@@ -250,6 +252,7 @@ let model_run (line : string) : string =
       | 'L' | 'A' -> canon_tree (run cfg0 List) false made
       | 'E' ->
         let ls = List.map ts (lines (fst (run cfg0 ListTerse))) in
+        let ls = if real then List.sort compare ls else ls in
         let seen = Hashtbl.create 16 in
         let parts = ref [] in
         List.iter (fun l ->
@@ -307,6 +310,16 @@ let executed_paths items =
 
 let has_mismatch items = List.exists (fun it -> String.length it >= 8 && String.sub it 0 8 = "MISMATCH") items
 
+let parse_val (s : string) : value option =
+  if s = "" then None else
+    let rest = String.sub s 1 (String.length s - 1) in
+    match s.[0] with
+    | 'i' -> Some (VInt (z_of_string rest))
+    | 'd' -> Some (VDbg (z_of_string rest))
+    | 'e' -> Some (VBlank (z_of_string rest))
+    | 's' -> Some (VStr (sdec rest))
+    | _ -> None
+
 (* ---- C14: the boolean specification on the implementation's output ---- *)
 let c14_sb (line : string) : string =
   let (case, impl) = split_sb line in
@@ -321,11 +334,37 @@ let c14_sb (line : string) : string =
       let (ls, log, rest) = read_terse body in
       if rest <> [] then bad ("terse-status:" ^ String.concat "," rest);
       if not (c14_quiet_sb (n_of_small (List.length log))) then bad "terse-listing-invoked-something";
+      if is_real case then begin
+        let cfg0 = mk_cfg c c.pos c.exact in
+        let exp_lines = List.sort compare (List.map (fun ((_, path), _) -> ts path ^ ": benchmark") (flat_exec cfg0 benches groups)) in
+        if List.sort compare ls <> exp_lines then bad "terse-listing-differs-from-the-program"
+      end;
       terse := Some ls
     | 'R' | 'Q' ->
       let (items, _, rest) = read_tree body in
       if rest <> [] then bad ("run-status:" ^ String.concat "," rest);
       if has_mismatch items then bad "run-leaves-and-calls-differ";
+      (* the case a run executes under a listed path is the case that path names: the row received the value its label renders *)
+      List.iter (fun it ->
+          if String.length it > 2 && it.[0] = 'X' then
+            match String.split_on_char '=' (String.sub it 2 (String.length it - 2)) with
+            | [p; _; v] ->
+              (match parse_val v with
+               | Some value -> if not (c17_label_sb (sdec p) value) then bad ("executed-case-is-not-the-listed-one:" ^ it)
+               | None -> bad ("unreadable-value:" ^ it))
+            | _ -> ()) items;
+      (* generated crates (no name clash by construction): what the run executes is what the program says *)
+      if is_real case then begin
+        let cfg0 = mk_cfg c c.pos c.exact in
+        let expected = List.map (fun ((id, path), arg) ->
+            enc (ts path) ^ "=C" ^ string_of_n id ^ (match arg with None -> "" | Some (_, v) -> "=" ^ render_val v))
+            (flat_exec cfg0 benches groups) in
+        let got = List.filter_map (fun it ->
+            if String.length it > 2 && it.[0] = 'X' then Some (String.sub it 2 (String.length it - 2)) else None) items in
+        if not (c12_flat_sb (List.map st expected) (List.map st got)) then
+          bad ("run-differs-from-the-program missing=" ^ String.concat "+" (List.filter (fun x -> not (List.mem x got)) expected)
+               ^ " unexpected=" ^ String.concat "+" (List.filter (fun x -> not (List.mem x expected)) got))
+      end;
       if act = 'R' then ran := Some (executed_paths items)
     | 'L' | 'A' ->
       let (_, log, rest) = read_tree body in
@@ -401,15 +440,6 @@ let c12_sb (line : string) : string =
 
 (* ---- C17: every executed row received the value its label renders; the executed rows are the selected
    ones; every argument list was evaluated once ---- *)
-let parse_val (s : string) : value option =
-  if s = "" then None else
-    let rest = String.sub s 1 (String.length s - 1) in
-    match s.[0] with
-    | 'i' -> Some (VInt (z_of_string rest))
-    | 'd' -> Some (VDbg (z_of_string rest))
-    | 's' -> Some (VStr (sdec rest))
-    | _ -> None
-
 let c17_sb (line : string) : string =
   let (case, impl) = split_sb line in
   let (c, benches, groups) = parse_case case in
